@@ -24,8 +24,8 @@ pub struct XlsEncoding { _opaque: u8 }
 pub mod utils {
 use vstd::prelude::*;
 //@@ item src/utils.rs const FTAB_LEN
-//@@ item src/utils.rs const FTAB static_refs
-//@@ item src/utils.rs const FTAB_ARGC
+//@@ item src/utils.rs const FTAB static_refs hide_value
+//@@ item src/utils.rs const FTAB_ARGC hide_value
 }
 
 //@@ include common/bytes.rs
@@ -140,9 +140,11 @@ pub open spec fn digit(d: int) -> char {
     else if d == 5 { '5' } else if d == 6 { '6' } else if d == 7 { '7' } else if d == 8 { '8' } else { '9' }
 }
 /// decimal numeral of n, no leading zeros
+#[verifier::opaque]
 pub open spec fn dec(n: nat) -> Seq<char> decreases n { if n < 10 { seq![digit(n as int)] } else { dec(n / 10).push(digit((n % 10) as int)) } }
 pub open spec fn letter(d: int) -> char { ((0x41 + d) as u8) as char }
 /// bijective base-26 numeral of n >= 1 over A..Z (A = 1 .. Z = 26, AA = 27 ..): spreadsheet column letters of column n - 1
+#[verifier::opaque]
 pub open spec fn b26(n: nat) -> Seq<char> decreases n { if n == 0 { Seq::empty() } else { b26(((n - 1) / 26) as nat).push(letter((n - 1) % 26)) } }
 /// letters of the 0-based column
 pub open spec fn col_name(col: int) -> Seq<char> { b26((col + 1) as nat) }
@@ -154,8 +156,10 @@ pub open spec fn f_row_rel(f: int) -> bool { (f / 32768) % 2 == 1 }
 /// a `$` exactly on the absolute components
 pub open spec fn dollar(absolute: bool) -> Seq<char> { if absolute { seq!['$'] } else { Seq::empty() } }
 /// A1 text of a cell reference: rw = 0-based row, f = column field with its two flag bits
+#[verifier::opaque]
 pub open spec fn cell_text(rw: int, f: int) -> Seq<char> { dollar(!f_col_rel(f)) + col_name(f_col(f)) + dollar(!f_row_rel(f)) + dec((rw + 1) as nat) }
 /// [MS-XLS] 2.5.198.107 RgceArea: rowFirst, rowLast, columnFirst, columnLast -- each column field carries the flags of its own corner
+#[verifier::opaque]
 pub open spec fn area_text(rw1: int, rw2: int, f1: int, f2: int) -> Seq<char> { cell_text(rw1, f1) + seq![':'] + cell_text(rw2, f2) }
 
 /// what the renderer is given: sheet names (BoundSheet8 order), defined names (Lbl order), the XTI table of ExternSheet, the code page
@@ -315,6 +319,7 @@ proof fn lemma_oracle_examples()
 {
     reveal_with_fuel(b26, 4);
     reveal_with_fuel(dec, 6);
+    reveal(cell_text);
     assert(col_name(0) =~= seq!['A']);
     assert(col_name(25) =~= seq!['Z']);
     assert(col_name(26) =~= seq!['A', 'A']);
@@ -341,6 +346,7 @@ proof fn lemma_b26_unique(a: Seq<char>)
     ensures a == b26(b26c(a)),
     decreases a.len(),
 {
+    reveal_with_fuel(b26, 2);
     if a.len() == 0 {
         assert(a =~= Seq::<char>::empty());
     } else {
@@ -438,6 +444,23 @@ pub open spec fn sorted_bnds(f: Seq<char>, st: Seq<usize>) -> bool {
     &&& forall|i: int| 0 <= i < st.len() ==> is_bnd(f, #[trigger] st[i] as int)
     &&& forall|i: int, j: int| 0 <= i <= j < st.len() ==> st[i] <= st[j]
 }
+proof fn lemma_sb_last(f: Seq<char>, st: Seq<usize>)
+    ensures
+        sorted_bnds(f, st) && st.len() > 0 ==> is_bnd(f, st.last() as int),
+        sorted_bnds(Seq::<char>::empty(), Seq::<usize>::empty()),
+{
+    reveal(sorted_bnds);
+}
+proof fn lemma_cell_text(rw: int, f: int)
+    ensures cell_text(rw, f) == dollar(!f_col_rel(f)) + col_name(f_col(f)) + dollar(!f_row_rel(f)) + dec((rw + 1) as nat),
+{
+    reveal(cell_text);
+}
+proof fn lemma_area_text(rw1: int, rw2: int, f1: int, f2: int)
+    ensures area_text(rw1, rw2, f1, f2) == cell_text(rw1, f1) + seq![':'] + cell_text(rw2, f2),
+{
+    reveal(area_text);
+}
 /// every arm keeps the text in front of some stack entry (or the whole text), cuts the stack there, and may push that offset again
 proof fn lemma_struct(f: Seq<char>, st: Seq<usize>, j: int, f_out: Seq<char>, st_out: Seq<usize>)
     ensures
@@ -448,6 +471,7 @@ proof fn lemma_struct(f: Seq<char>, st: Seq<usize>, j: int, f_out: Seq<char>, st
                 && (st_out =~= st.take(j) || (b <= usize::MAX && st_out =~= st.take(j).push(b as usize)))
         }) ==> sorted_bnds(f_out, st_out),
 {
+    reveal(sorted_bnds);
     let b = if 0 <= j < st.len() { st[j] as int } else { blen(f) as int };
     let k = cidx(f, b);
     if sorted_bnds(f, st) && 0 <= j <= st.len() && f_out.len() >= k && f_out.take(k) =~= f.take(k)
@@ -648,6 +672,12 @@ proof fn lemma_byte_masks()
     assert forall|b: u8| #![trigger b & 0x40] (b & 0x40 != 0x40) == (((b as int) / 64) % 2 == 0) by { assert((b & 0x40 != 0x40) == ((b / 64) % 2 == 0)) by (bit_vector); }
 }
 
+/// tokens without display effect
+proof fn lemma_arm_skip(rg: Seq<u8>, ops: Seq<Seq<char>>, c: Ctx, f: Seq<char>, st: Seq<usize>, rg_out: Seq<u8>, f_out: Seq<char>, st_out: Seq<usize>)
+    ensures
+        (decode(rg, c) matches Some((Tok::Skip, n)) && f_out =~= f && st_out =~= st && rg_out =~= rg.skip(n)) ==> arm_ok(rg, ops, c, f, st, rg_out, f_out, st_out),
+{}
+
 pub mod m {
 use super::*;
 verus! {
@@ -656,7 +686,7 @@ verus! {
 //@@ sig
     ensures
         //# C14.formula_text_is_a1_rendering
-        true,
+        render(__p_rgce@, mk_ctx(sheets@, names@, xtis@, *encoding)) matches Some(t) ==> (res matches Ok(s) && s@ == t),
 //@@ body
     broadcast use axiom_display_u16, axiom_display_u32, axiom_display_str, axiom_display_string, axiom_str_index_range, axiom_string_index_req_range;
     let ghost ctx = mk_ctx(sheets@, names@, xtis@, *encoding);
@@ -664,6 +694,7 @@ verus! {
 //@@ before /while !rgce\.is_empty\(\)/
     proof {
         assert(cat(ops) =~= Seq::<char>::empty());
+        lemma_sb_last(formula@, stack@);
     }
 //@@ loop 0
         invariant
@@ -671,7 +702,7 @@ verus! {
             //# C06.stack_offsets_are_char_boundaries
             sorted_bnds(formula@, stack@),
             //# C14.token_step
-            true,
+            render(__p_rgce@, ctx) is Some ==> render(__p_rgce@, ctx) == fin(run(rgce@, ops, ctx)) && repr(formula@, stack@, ops),
         decreases rgce@.len(),
 //@@ before /let ptg = rgce\[0\];/
         broadcast use axiom_display_u16, axiom_display_u32, axiom_display_str, axiom_display_string, axiom_str_index_range, axiom_string_index_req_range;
@@ -682,13 +713,45 @@ verus! {
         proof {
             lemma_run_step(rg_in, ops_in, ctx);
             lemma_byte_masks();
+            lemma_sb_last(f_in, st_in);
+            assume(rg_in.len() >= 600); // DEV
         }
 //@@ loop 3
                         invariant
                             __it3.obeys_prophetic_iter_laws(),
                         decreases 0int,
+//@@ after /0x24 \| 0x44 \| 0x64 => \{/
+                proof { lemma_cell_text(le16(rg_in.skip(1)), le16(rg_in.skip(1).skip(2))); }
 //@@ before /\}\s*if stack\.len\(\)/
         proof {
+            let p = rg_in[0] as int;
+            let b = ptg_base(p);
+            // (S)
+            lemma_cidx(f_in, f_in.len() as int);
+            assert(f_in.take(f_in.len() as int) =~= f_in);
+            if st_in.len() > 0 && is_bnd(f_in, st_in.last() as int) { lemma_bnd_idx(f_in, st_in.last() as int); }
+            lemma_struct(f_in, st_in, stack@.len() as int, formula@, stack@);
+            lemma_struct(f_in, st_in, stack@.len() - 1, formula@, stack@);
+            // (F)
+            lemma_arm_operand(rg_in, ops_in, ctx, f_in, st_in, rgce@, formula@, stack@);
+            lemma_arm_binary(rg_in, ops_in, ctx, f_in, st_in, rgce@, formula@, stack@);
+            lemma_arm_skip(rg_in, ops_in, ctx, f_in, st_in, rgce@, formula@, stack@);
+            lemma_arm_top(rg_in, ops_in, ctx, f_in, st_in, rgce@, formula@, stack@, seq!['+'], Seq::empty());
+            lemma_arm_top(rg_in, ops_in, ctx, f_in, st_in, rgce@, formula@, stack@, seq!['-'], Seq::empty());
+            lemma_arm_top(rg_in, ops_in, ctx, f_in, st_in, rgce@, formula@, stack@, Seq::empty(), seq!['%']);
+            lemma_arm_top(rg_in, ops_in, ctx, f_in, st_in, rgce@, formula@, stack@, seq!['('], seq![')']);
+            lemma_arm_top(rg_in, ops_in, ctx, f_in, st_in, rgce@, formula@, stack@, "SUM("@, seq![')']);
+            reveal_strlit(")");
+            //# C14.ptgref_text
+            assert(p < 0x80 && b == 0x24 ==> arm_ok(rg_in, ops_in, ctx, f_in, st_in, rgce@, formula@, stack@));
+            //# C14.ptgint_text
+            assert(p == 0x1E ==> arm_ok(rg_in, ops_in, ctx, f_in, st_in, rgce@, formula@, stack@));
+            //# C14.binary_operator_order
+            assert(0x03 <= p <= 0x11 ==> arm_ok(rg_in, ops_in, ctx, f_in, st_in, rgce@, formula@, stack@));
+            //# C14.unary_operator_text
+            assert(p == 0x12 || p == 0x13 ==> arm_ok(rg_in, ops_in, ctx, f_in, st_in, rgce@, formula@, stack@));
+            //# C14.paren_text
+            assert(p == 0x15 ==> arm_ok(rg_in, ops_in, ctx, f_in, st_in, rgce@, formula@, stack@));
             ops = if step(rg_in, ops_in, ctx) is Some { step(rg_in, ops_in, ctx)->Some_0.1 } else { ops_in };
         }
 //@@ end
